@@ -10,6 +10,7 @@ mod seq;
 mod shim;
 mod store;
 mod vecs;
+mod watchdog;
 
 #[global_allocator]
 static ALLOC: vecs::Counting = vecs::Counting;
@@ -48,6 +49,7 @@ fn main() {
                 .unwrap_or((0, 1));
             fs::create_dir_all(&scratch).unwrap();
             let mut out = seq::Out { w: std::io::BufWriter::new(fs::File::create(&outp).unwrap()), lines: 0 };
+            watchdog::start(format!("{outp}.hang"));
             let f = BufReader::new(fs::File::open(&inp).unwrap());
             let mut n = 0;
             for (i, line) in f.lines().enumerate() {
@@ -61,6 +63,7 @@ fn main() {
                     eprintln!("casharn: mode {mode} needs LD_PRELOAD=libfsshim.so");
                     std::process::exit(2);
                 }
+                watchdog::scenario(&sc["id"].to_string());
                 let kt = sc["cfg"]["kt"].as_str().unwrap_or("string").to_string();
                 if mode == "conc" {
                     with_key_type!(kt.as_str(), run_conc, &sc, &scratch, &mut out);
@@ -68,6 +71,7 @@ fn main() {
                     with_key_type!(kt.as_str(), run_one, &sc, &scratch, &mut out);
                 }
                 n += 1;
+                out.w.flush().unwrap();
             }
             out.w.flush().unwrap();
             let _ = fs::remove_dir_all(&scratch);
